@@ -89,3 +89,53 @@ func ZZ_C08_Server() {
 	uc := sr.MonetaryTariff.RateElement.UnitCost
 	vx.Assert("tariff digits/exponent denote the unit cost", uc.Exponent == 0 && uint64(uc.ValueDigits) == c)
 }
+
+// C08 (requests in flight together): two rating requests for different
+// subscribers/rating groups with different unit costs are served by the same
+// handler concurrently (every interleaving at the handler's I/O points:
+// database read, answer encode, socket write, within the switch budget); each
+// answer carries the tariff and price of its own request.
+//
+//gosx:property=C08 tier=quick unwind=40 p.preempt=2 p.preempt.thorough=4 timeout=30000
+func ZZ_C08_ConcurrentRequests() {
+	vx.Config("sched.ioYield", true)
+	costStr := [2]string{vx.DecString("costA"), vx.DecString("costB")}
+	var costs [2]int64
+	costs[0], _ = strconv.ParseInt(costStr[0], 10, 64)
+	costs[1], _ = strconv.ParseInt(costStr[1], 10, 64)
+	vx.Assume(costs[0] >= 1 && costs[0] <= 1000 && costs[1] >= 1 && costs[1] <= 1000 && costs[0] != costs[1])
+	subs := [2]string{"ab", "cd"}
+	consumed := [2]uint32{vx.Uint32("consumedA"), vx.Uint32("consumedB")}
+	vx.Assume(consumed[0] <= 1000 && consumed[1] <= 1000)
+	var msgs [2]*diam.Message
+	var surs [2]charging_datatype.ServiceUsageRequest
+	for i := 0; i < 2; i++ {
+		vx.DBPut("imsi-"+subs[i], uint32(i+1), "unitCost", costStr[i])
+		surs[i].SessionId = datatype.UTF8String("s" + subs[i])
+		surs[i].SubscriptionId = &charging_datatype.SubscriptionId{SubscriptionIdType: charging_datatype.END_USER_IMSI, SubscriptionIdData: datatype.UTF8String(subs[i])}
+		surs[i].ServiceRating = &charging_datatype.ServiceRating{
+			ServiceIdentifier: datatype.Unsigned32(i + 1),
+			RequestSubType:    charging_datatype.REQ_SUBTYPE_DEBIT,
+			ConsumedUnits:     datatype.Unsigned32(consumed[i]),
+		}
+		msgs[i] = diam.NewRequest(111, 16777218, nil)
+		vx.Assert("request marshals", msgs[i].Marshal(&surs[i]) == nil)
+	}
+	conn, _ := vx.DiamConn().(diam.Conn)
+	h := handleSUR()
+	vx.Parallel(func() { h(conn, msgs[0]) }, func() { h(conn, msgs[1]) })
+	for i := 0; i < 2; i++ {
+		var sua charging_datatype.ServiceUsageResponse
+		ok := vx.AnswerTo(msgs[i], &sua)
+		vx.Assert("each request in flight is answered", ok)
+		if !ok || sua.ServiceRating == nil || sua.ServiceRating.MonetaryTariff == nil ||
+			sua.ServiceRating.MonetaryTariff.RateElement == nil || sua.ServiceRating.MonetaryTariff.RateElement.UnitCost == nil {
+			vx.Assert("answer carries a rating with a tariff", !ok)
+			continue
+		}
+		vx.Assert("answer echoes its own Session-Id", sua.SessionId == surs[i].SessionId)
+		uc := sua.ServiceRating.MonetaryTariff.RateElement.UnitCost
+		vx.Assert("tariff of the answer is the unit cost of its own request", uc.Exponent == 0 && uint64(uc.ValueDigits) == uint64(costs[i]))
+		vx.Assert("price of the answer = own consumed units x own unit cost", uint64(sua.ServiceRating.Price) == uint64(consumed[i])*uint64(costs[i]))
+	}
+}
